@@ -13,6 +13,13 @@ ASSUME = [
     "book-keeping is compared as sets (data, excludeData) plus the user-role flag, i.e. exactly the part that "
     "influences later decisions; nameMapping is only required to be unchanged by rejected requests",
     "task ids are supplied by the plan (t01, t02, ... in creation order), so the reload order equals the creation order",
+    "requests in flight: at most two create requests overlap; a create is held by a gate decorator around the "
+    "MetaStoreFactory in front of its 1st store call (names reserved, no task stored) and its 4th (task stored, not "
+    "started), one request goroutine runs at a time, other creates / deletes run to completion in between; a delete never "
+    "names a task whose create has not returned, the process is only replaced at quiescent points; Exclusive, "
+    "SelectsExactly and BookImplied are judged when no request is in flight (every trace ends that way), RejectIsNoop at "
+    "the rejected call; a request admitted and still in flight counts as an owner of the names of its specification for "
+    "the exclusions of a request admitted meanwhile (also if it fails later)",
     "TLC exhaustiveness holds for the constants in the cfg files only",
 ]
 
@@ -21,6 +28,9 @@ C = dict(
     model_checks=[
         dict(module="TaskBook", cfg="TaskBook_MCq.cfg", tiers=["quick"], workers=8),
         dict(module="TaskBook", cfg="TaskBook_MC.cfg", tiers=["thorough"], workers=8),
+        # two create requests in flight (Begin / Advance sections interleaved with other requests)
+        dict(module="TaskBook", cfg="TaskBook_MCparq.cfg", tiers=["quick"], workers=8),
+        dict(module="TaskBook", cfg="TaskBook_MCpar.cfg", tiers=["thorough"], workers=8),
     ],
     plan_sources=[
         dict(name="shapes3", module="TaskBook", cfg="TaskBook_PlanShapes3.cfg", cap={"quick": 500}, workers=4, tiers=["quick"]),
@@ -28,14 +38,20 @@ C = dict(
         dict(name="targets", module="TaskBook", cfg="TaskBook_PlanTargets.cfg", cap={"quick": 150}, workers=4),
         dict(name="sim", module="TaskBook", cfg="TaskBook_PlanSim.cfg", simulate={"quick": 120, "thorough": 4000},
              depth=9, params={"max_tasks": 3}),
+        # requests in flight: every history of depth 3 (quick: a sample; the driver completes what is still in flight) /
+        # depth 4 (thorough: a sample) with an overlap, and random deep ones
+        dict(name="par3", module="TaskBook", cfg="TaskBook_PlanPar3.cfg", cap={"quick": 400}, workers=4),
+        dict(name="par4", module="TaskBook", cfg="TaskBook_PlanPar.cfg", cap={"thorough": 12000}, workers=8, tiers=["thorough"]),
+        dict(name="simpar", module="TaskBook", cfg="TaskBook_PlanSimPar.cfg", simulate={"quick": 100, "thorough": 3000},
+             depth=9, params={"max_tasks": 3}),
     ],
     directed="plans/C10.jsonl",
     trace=("TaskBook_Trace", "TaskBook_Trace.cfg"),
     death="violation",
     nontrivial=lambda t: any(len(e.get("tasks", [])) >= 2 for e in t["events"]),
-    rule="plans = complete histories of TaskBook.tla (exhaustive enumeration for the shape and the two-target "
-         "configurations, TLC -simulate for the fault configuration); a trace is non-trivial if at some point two tasks "
-         "coexist; distinct = distinct event sequences",
+    rule="plans = complete histories of TaskBook.tla (exhaustive enumeration for the shape, the two-target and the "
+         "requests-in-flight configurations, TLC -simulate for the fault configurations); a trace is non-trivial if at "
+         "some point two tasks coexist; distinct = distinct event sequences",
     assumptions=ASSUME,
     validate_timeout=1500,
 )
@@ -48,4 +64,10 @@ def run(tier, replay=None):
         if not r.violated:
             raise vlib.Inconclusive("TaskBook_AsBuilt.cfg no longer violates the contract: the deviation switches are vacuous")
         vlib.log("[tlc] TaskBook/TaskBook_AsBuilt.cfg: violates %s as expected (models the code as built)" % sorted(set(r.violated)))
+        # negative control: a revert that restores a snapshot of the target's book-keeping loses the entries of a request
+        # admitted while the failing create was in flight
+        r = vlib.run_tlc("TaskBook", "TaskBook_RevertBySnapshot.cfg", workers=4, timeout=300)
+        if not r.violated:
+            raise vlib.Inconclusive("TaskBook_RevertBySnapshot.cfg no longer violates the contract: the control is vacuous")
+        vlib.log("[tlc] TaskBook/TaskBook_RevertBySnapshot.cfg: violates %s as expected (negative control)" % sorted(set(r.violated)))
     return flow.standard_flow(C, tier, replay)
